@@ -2526,3 +2526,131 @@ Proof.
   intros h c gp cur0 gas0 p' H. apply (M_invariant h (new_pool c gp cur0 gas0)); auto.
   split; [apply new_pool_CS|]. intros a l Hl. cbn in Hl. discriminate.
 Qed.
+
+(* ================================================================ the pending-limit loops keep pending gap-free and the virtual nonce in step *)
+Lemma run_from_app : forall a b c, run_from c (a ++ b) <-> run_from c a /\ run_from (c + Z.of_nat (length a)) b.
+Proof.
+  induction a as [|x a IH]; intros b c; cbn [app run_from length].
+  - rewrite Z.add_0_r. tauto.
+  - rewrite IH. replace (c + 1 + Z.of_nat (length a)) with (c + Z.of_nat (S (length a))) by lia. tauto.
+Qed.
+Lemma pn_get_set : forall p a n b, pn_get (pn_set p a n) b = if b =? a then n else pn_get p b.
+Proof.
+  intros p a n b. unfold pn_get, pn_set. cbn [pnonce set_pnonce cur_nonce cur]. destruct (b =? a) eqn:E.
+  - assert (b = a) by lia. subst. rewrite assoc_set_same. auto.
+  - rewrite assoc_set_other by lia. reflexivity.
+Qed.
+Lemma shrink_one_pn : forall p a p', pn_ok p -> shrink_one p a = Ok p' -> pn_ok p'.
+Proof.
+  intros p a p' H0 H. unfold shrink_one in H. destruct (assoc a (pending p)) as [l|] eqn:P; [|discriminate].
+  pose proof (H0 a) as Ha. rewrite P in Ha. destruct Ha as [Hr Hn].
+  unfold tl_cap in H. unfold tl_len in *. destruct (Z.of_nat (length (items l)) <=? Z.of_nat (length (items l)) - 1) eqn:E1; [lia|].
+  destruct (Z.of_nat (length (items l)) - 1 <? 0) eqn:E2; [discriminate|]. inversion H; subst; clear H.
+  set (k := Z.to_nat (Z.of_nat (length (items l)) - 1)) in *.
+  assert (Hk : (k = length (items l) - 1)%nat /\ (1 <= length (items l))%nat) by (unfold k; lia). destruct Hk as [Hk Hlen].
+  pose proof (firstn_skipn k (items l)) as Hsplit. rewrite <- Hsplit in Hr. apply run_from_app in Hr. destruct Hr as [Hr1 Hr2].
+  assert (Lf : length (firstn k (items l)) = k) by (apply firstn_length_le; lia). rewrite Lf in Hr2.
+  assert (Ls : length (skipn k (items l)) = 1%nat) by (rewrite skipn_length; lia).
+  destruct (skipn k (items l)) as [|t [|u r]] eqn:Sk; cbn [length] in Ls; try lia. cbn [run_from] in Hr2. destruct Hr2 as [Ht _].
+  cbn [rev app fold_left].
+  set (l' := mkTL (strict l) (firstn k (items l)) (costcap l) (gascap l)) in *.
+  set (pb := set_pending p (assoc_set a l' (pending p))).
+  assert (Hpn : pn_get (all_drop pb (thash t)) a = pn_get p a) by reflexivity.
+  rewrite Hpn. destruct (tnonce t <? pn_get p a) eqn:E3; [|lia].
+  intros b. cbn [pending pn_set set_pnonce all_drop set_all set_priced]. fold pb.
+  change (pending pb) with (assoc_set a l' (pending p)).
+  rewrite pn_get_set. change (cur_nonce (pn_set (all_drop pb (thash t)) a (tnonce t)) b) with (cur_nonce p b).
+  destruct (Z.eq_dec b a) as [->|Hne].
+  - rewrite assoc_set_same, Z.eqb_refl. split; [exact Hr1|]. unfold l', tl_len. cbn [items]. rewrite Lf. lia.
+  - rewrite assoc_set_other by auto. destruct (b =? a) eqn:E; [lia|]. change (pn_get (all_drop pb (thash t)) b) with (pn_get p b). apply (H0 b).
+Qed.
+
+Lemma shrink_fold_pn : forall l (st r : pool * Z), pn_ok (fst st) ->
+  fold_res (fun (st : pool * Z) a => q <- shrink_one (fst st) a ;; Ok (q, (snd st - 1) mod two64)) l st = Ok r -> pn_ok (fst r).
+Proof.
+  intros l st r Hun H. eapply (fold_res_inv _ _ (fun st => pn_ok (fst st))); eauto.
+  intros a x a' Ha Hf. apply bind_ok in Hf. destruct Hf as (q & H1 & H2). inversion H2; subst. cbn [fst]. eapply shrink_one_pn; eauto.
+Qed.
+Lemma equalize_pn : forall fuel p cnt offs th r, pn_ok p -> equalize fuel p cnt offs th = Ok r -> pn_ok (fst r).
+Proof.
+  induction fuel as [|f IH]; intros p cnt offs th r Hun H; cbn [equalize] in H; [discriminate|].
+  apply bind_ok in H. destruct H as (n & _ & H).
+  destruct ((c_gslots (conf p) <? cnt) && (th <? n)); [|inversion H; subst; auto].
+  apply bind_ok in H. destruct H as (r1 & H1 & H2). eapply IH; [|exact H2]. eapply shrink_fold_pn; [|exact H1]. auto.
+Qed.
+Lemma spam_loop_pn : forall fuel o p cnt sp offs r, pn_ok p -> spam_loop fuel o p cnt sp offs = Ok r -> pn_ok (fst (fst r)).
+Proof.
+  induction fuel as [|f IH]; intros o p cnt sp offs r Hun H; cbn [spam_loop] in H; [discriminate|].
+  destruct (c_gslots (conf p) <? cnt); [|inversion H; subst; auto].
+  destruct (prque_pop o sp) as [[off rest]|]; [|inversion H; subst; auto].
+  destruct (1 <? Z.of_nat (length (offs ++ [off]))).
+  - apply bind_ok in H. destruct H as (th & _ & H). apply bind_ok in H. destruct H as (r1 & H1 & H2).
+    eapply IH; [|exact H2]. eapply equalize_pn; eauto.
+  - eapply IH; eauto.
+Qed.
+Lemma minimum_loop_pn : forall fuel p cnt offs r, pn_ok p -> minimum_loop fuel p cnt offs = Ok r -> pn_ok (fst r).
+Proof.
+  induction fuel as [|f IH]; intros p cnt offs r Hun H; cbn [minimum_loop] in H; [discriminate|].
+  apply bind_ok in H. destruct H as (n & _ & H).
+  destruct ((c_gslots (conf p) <? cnt) && (c_aslots (conf p) <? n)); [|inversion H; subst; auto].
+  apply bind_ok in H. destruct H as (r1 & H1 & H2). eapply IH; [|exact H2]. eapply shrink_fold_pn; [|exact H1]. auto.
+Qed.
+Lemma pe_pending_limit_pn : forall o p p', pn_ok p -> pe_pending_limit o p = Ok p' -> pn_ok p'.
+Proof.
+  intros o p p' Hun H. unfold pe_pending_limit in H. destruct (c_gslots (conf p) <? pending_count p); [|inversion H; subst; auto].
+  apply bind_ok in H. destruct H as ([[p1 cnt1] offs] & H1 & H2). apply spam_loop_pn in H1; auto. cbn [fst] in H1.
+  destruct ((c_gslots (conf p1) <? cnt1) && negb (match offs with [] => true | _ => false end)); [|inversion H2; subst; auto].
+  apply bind_ok in H2. destruct H2 as (r2 & H3 & H4). inversion H4; subst. eapply minimum_loop_pn; eauto.
+Qed.
+
+(* non-vacuity for the pending-limit theorem: AccountSlots=1, GlobalSlots=4; A has pending [0] and queued [2,3], B has
+   pending [0,1]; A submits nonce 1, four of A's transactions are pending, the total overflows and A (4) and B (2) are
+   equalised: A keeps nonces 0,1 and its virtual nonce is lowered to 2 *)
+Definition cfg_slots : cfg := mkCfg 1 4 3 6 10 false.
+Definition slots_history : list (oracle * op) :=
+  [(o0, OpAddRemote (mk 1 0 0 3000)); (o0, OpAddRemote (mk 2 0 2 3100)); (o0, OpAddRemote (mk 3 0 3 3200));
+   (o0, OpAddRemote (mk 4 1 0 10)); (o0, OpAddRemote (mk 5 1 1 11)); (o0, OpAddRemote (mk 6 0 1 3300))].
+Lemma slots_history_runs :
+  exists p, run (new_pool cfg_slots 1 [(0, (0, 1000000000)); (1, (0, 1000000000))] 1000000) slots_history = Ok p /\
+            map (fun kv => (fst kv, map tnonce (items (snd kv)))) (pending p) = [(0, [0; 1]); (1, [0; 1])] /\
+            pn_get p 0 = 2 /\ pn_okb p [0; 1] = true.
+Proof. eexists. split; [vm_compute; reflexivity|]. vm_compute. auto. Qed.
+
+(* promoting the transaction whose nonce is the virtual nonce extends the run by one and advances the virtual nonce *)
+Lemma run_from_bounds : forall l c x, run_from c l -> In x l -> c <= tnonce x < c + Z.of_nat (length l).
+Proof.
+  induction l as [|y l IH]; intros c x Hr Hx; [destruct Hx|]. cbn [run_from length] in *. destruct Hr as [Hy Hr].
+  destruct Hx as [->|Hx]; [lia|]. specialize (IH _ _ Hr Hx). lia.
+Qed.
+Lemma ins_end : forall t l, (forall x, In x l -> tnonce x < tnonce t) -> ins_tx t l = l ++ [t].
+Proof.
+  induction l as [|y l IH]; intros H; cbn [ins_tx app]; auto. pose proof (H y (or_introl eq_refl)).
+  destruct (tnonce t <? tnonce y) eqn:E1; [lia|]. destruct (tnonce t =? tnonce y) eqn:E2; [lia|]. rewrite IH; auto. intros x Hx. apply H. right; auto.
+Qed.
+Lemma promote_tx_pn : forall p a t, pn_ok p -> tnonce t = pn_get p a -> 0 <= tnonce t < two64 - 1 -> pn_ok (promote_tx p a t).
+Proof.
+  intros p a t H0 Hn Hb. pose proof (H0 a) as Ha. unfold promote_tx.
+  change (match assoc a (pending p) with Some l => l | None => new_txlist true end) with (list_of (pending p) a true).
+  assert (Hl0 : run_from (cur_nonce p a) (items (list_of (pending p) a true)) /\ pn_get p a = cur_nonce p a + tl_len (list_of (pending p) a true)).
+  { unfold list_of. destruct (assoc a (pending p)); [exact Ha|]. cbn. split; auto. lia. }
+  destruct Hl0 as [Hr Hp]. set (l0 := list_of (pending p) a true) in *. unfold tl_len in Hp.
+  assert (Hlt : forall x, In x (items l0) -> tnonce x < tnonce t).
+  { intros x Hx. pose proof (run_from_bounds _ _ _ Hr Hx). lia. }
+  assert (G : tl_get l0 (tnonce t) = None).
+  { unfold tl_get. destruct (find (fun x => tnonce x =? tnonce t) (items l0)) as [x|] eqn:F; auto. apply find_some in F. destruct F as [Hx E]. specialize (Hlt _ Hx). lia. }
+  unfold tl_add. rewrite G. cbn iota. rewrite (ins_end _ _ Hlt).
+  set (l' := mkTL (strict l0) (items l0 ++ [t]) (if costcap l0 <? tcost t then tcost t else costcap l0) (if gascap l0 <? tgas t then tgas t else gascap l0)).
+  set (p1 := set_pending p (assoc_set a l' (pending p))).
+  assert (Hmod : (tnonce t + 1) mod two64 = tnonce t + 1) by (apply Z.mod_small; unfold two64 in *; lia). rewrite Hmod.
+  intros b. rewrite pn_get_set.
+  match goal with |- match assoc b (pending (pn_set ?Q _ _)) with _ => _ end => set (q := Q) end.
+  assert (Hq : pending q = assoc_set a l' (pending p) /\ (forall c, pn_get q c = pn_get p c) /\ (forall c, cur_nonce q c = cur_nonce p c)).
+  { subst q. match goal with |- context [match ?X with _ => _ end] => destruct X end; repeat split; reflexivity. }
+  destruct Hq as (Hpq & Hpn & Hcu).
+  change (pending (pn_set q a (tnonce t + 1))) with (pending q). change (cur_nonce (pn_set q a (tnonce t + 1)) b) with (cur_nonce q b).
+  rewrite Hpq, Hcu. destruct (Z.eq_dec b a) as [->|Hne].
+  - rewrite assoc_set_same, Z.eqb_refl. unfold l', tl_len. cbn [items]. split.
+    + apply run_from_app. split; auto. cbn [run_from]. split; auto. lia.
+    + rewrite app_length. cbn [length]. lia.
+  - rewrite assoc_set_other by auto. destruct (b =? a) eqn:E; [lia|]. rewrite Hpn. apply (H0 b).
+Qed.
